@@ -119,6 +119,11 @@ Fixpoint first_free_id (used : list nat) (fuel i : nat) : nat :=
 Definition new_qubit_id (st : lst) : nat :=
   let used := map snd (l_q st) in first_free_id used (S (List.length used)) 0.
 
+(* M registers in use (kept for a register outcome until the flush) *)
+Definition mused_list (st : lst) : list nat :=
+  (fix go (l : list bool) (i : nat) : list nat :=
+     match l with [] => [] | b :: r => if b then i :: go r (S i) else go r (S i) end) (l_mused st) 0.
+
 Definition active_list (st : lst) : list nat :=
   (fix go (l : list bool) (i : nat) : list nat :=
      match l with [] => [] | b :: r => if b then i :: go r (S i) else go r (S i) end) (l_act st) 0.
